@@ -154,21 +154,22 @@ type World struct {
 	Scenario *Scenario
 	agents   []Agent
 
-	sticky     *Actor
-	phase      int // phaseDisturbed, phaseCalm
-	rr         int // round-robin cursor of the fair scheduler
-	trace      []string
-	stepNo     int
-	failed     error // machinery trouble
-	epoch      int
-	stopNow    bool
-	LogHash    uint64
-	envForce   bool
-	zombies    []*Actor
-	Registry   *Registry
-	sweepCount int
-	Taint      map[string]string // object key -> cause tag set by a monitor (e.g. stale takeover)
-	extra      map[string]any
+	sticky        *Actor
+	phase         int // phaseDisturbed, phaseCalm
+	rr            int // round-robin cursor of the fair scheduler
+	trace         []string
+	stepNo        int
+	failed        error // machinery trouble
+	epoch         int
+	stopNow       bool
+	LogHash       uint64
+	envForce      bool
+	zombies       []*Actor
+	Registry      *Registry
+	sweepCount    int
+	sweepTeardown []int             // request indexes (sweep numbering) issued by passes of an owner that is being torn down
+	Taint         map[string]string // object key -> cause tag set by a monitor (e.g. stale takeover)
+	extra         map[string]any
 }
 
 const (
